@@ -2,9 +2,9 @@
    Theorems about the executable model coq/model/Mdl.v (tables regenerated from the source by tools/gen_mdl.py).
    PARTIAL by design: MRV (lxml), float formatting and the grep-based index are covered by the search only. *)
 From Coq Require Import ZArith List String Ascii Bool Lia.
-From Model Require Import PyBase Mdl MdlMap MdlMapRxn Mrv Stereo.
+From Model Require Import PyBase Mdl MdlMap MdlMapRxn Mrv Stereo StereoSmiles StereoWedge.
 From Gen Require Import MdlTables MdlSource MdlFn.
-From Proofs Require Import MdlProofs MdlV2000 MdlV3000 MdlTail MdlFraming MdlFramingExt MdlMeta MdlFile MdlFileMol MdlFileMol3 MdlRxn MdlFileRxn MdlFileRxn3 MdlSessions MdlEscape MdlSourceTie MdlMapProofs MdlSlices MrvProofs StereoProofs MdlMapRxnProofs MdlFnTie MdlFnTie2 MdlMapRxnGeneral MdlRxnNumbers MdlRxnDropped MdlFuel MdlFuel2 MdlRxnDrop MdlMapRxnStrict.
+From Proofs Require Import MdlProofs MdlV2000 MdlV3000 MdlTail MdlFraming MdlFramingExt MdlMeta MdlFile MdlFileMol MdlFileMol3 MdlRxn MdlFileRxn MdlFileRxn3 MdlSessions MdlEscape MdlSourceTie MdlMapProofs MdlSlices MrvProofs StereoProofs MdlMapRxnProofs MdlFnTie MdlFnTie2 MdlMapRxnGeneral MdlRxnNumbers MdlRxnDropped MdlFuel MdlFuel2 MdlRxnDrop MdlMapRxnStrict MdlWedgeTie.
 Import ListNotations.
 Open Scope Z_scope.
 Local Notation length := List.length.
@@ -829,6 +829,25 @@ Theorem C11_tie_mapping_steps : forall ig,
   (forall rc pr rg c l, src_ppr_reagents ig rc pr rg c l = ppr_reagents ig rc pr rg c l).
 Proof. exact (fun ig => conj (tie_ppm_step ig) (conj (tie_ppr_step ig) (conj (tie_ppr_first_step ig) (conj tie_ppr_start (tie_ppr_reagents ig))))). Qed.
 Print Assumptions C11_tie_mapping_steps.
+
+(* ---- reading the configuration of an ALLENE from a wedge (add_wedge, allene branch; model Model.StereoWedge.wedge_al shared with C12):
+        the model's selection IS the `if w == 0 / 1 / 2 / else` chain as translated from the source (Gen.MdlFn.src_allene_wedge); the chain
+        does not depend on which end of the allene is called the first one; an up and a down wedge give opposite labels ---- *)
+Theorem C11_tie_allene_wedge : forall isH n0 n1 n2 n3 t1 t2 n m c mark w,
+  isH m = false -> env_index (n0, n1, n2, n3) m = Some w ->
+  wedge_al isH (n0, n1, n2, n3) t1 t2 n m c mark =
+    let '(m1, a, b, r) := src_allene_wedge w t1 t2 n0 n1 in
+    Ok (allene_label r (allene_sign mark (xy_of c a) (xy_of c b) (xy_of c m1))).
+Proof. exact tie_allene_wedge. Qed.
+Print Assumptions C11_tie_allene_wedge.
+Theorem C11_allene_wedge_end_symmetry : forall w t1 t2 o0 o1, 0 <= w <= 3 ->
+  src_allene_wedge (other_end_position w) t2 t1 o1 o0 = src_allene_wedge w t1 t2 o0 o1.
+Proof. exact allene_wedge_end_symmetry. Qed.
+Print Assumptions C11_allene_wedge_end_symmetry.
+Theorem C11_allene_label_flip : forall r mark u v w,
+  allene_label r (allene_sign (- mark) u v w) = option_map negb (allene_label r (allene_sign mark u v w)).
+Proof. exact allene_label_flip. Qed.
+Print Assumptions C11_allene_label_flip.
 
 (* ---- the geometric sign functions behind wedge reading / writing (model and lemmas shared with C12) ---- *)
 Theorem C11_pyramid_sign_antisym : forall n u v w,
